@@ -6,6 +6,8 @@
 package main
 
 import (
+	"crypto/sha256"
+	"encoding/hex"
 	"encoding/json"
 	"fmt"
 	"math"
@@ -255,7 +257,7 @@ func dupKeys(j *J) *J {
 	return out
 }
 
-const nAliasKinds = 22
+const nAliasKinds = 23
 
 // alias envelopes: other spellings a client may use; the decoders are expected to read the same
 // request from most of them (the model decides; all envelopes the model decodes to the same request
@@ -267,7 +269,7 @@ func aliasSub(t *table, o *opReq, kind int, r *rng.R, id func() string) *submiss
 		t.tree(txt, j)
 		return &submission{Transport: "post-json", Role: "alias", Label: label, HTTP: &httpEnv{Method: "POST", ContentType: ct, Params: params, Body: txt}}
 	}
-	if o.Sub && kind < 14 {
+	if o.Sub && (kind < 14 || kind == 22) {
 		return nil
 	}
 	switch kind {
@@ -371,6 +373,23 @@ func aliasSub(t *table, o *opReq, kind int, r *rng.R, id func() string) *submiss
 		}
 		s := wsSub(t, rng.Pick(r, []string{"gws", "tws"}), "other", "dup-null", id(), j, styleCompact, "itp")
 		return &s
+	case 22:
+		// persisted-query lookup of a hash that was never registered: with a storage configured the
+		// answer is PersistedQueryNotFound, without one the empty query is executed; either way an
+		// ordinary 200 application/json response
+		sum := sha256.Sum256([]byte(o.Query + "#never-registered"))
+		ext := jobj(kv{"persistedQuery", jobj(kv{"version", jnum(rng.Pick(r, []string{"1", "1.0", "1e0"}))}, kv{"sha256Hash", jstr(hex.EncodeToString(sum[:]))})})
+		if r.Bool() {
+			j := jobj(kv{"extensions", ext})
+			if o.Vars != nil {
+				j.O = append(j.O, kv{"variables", o.Vars})
+			}
+			s := postJSON("pq-not-found", j, styleCompact, "application/json", nil)
+			s.Role = "other"
+			return s
+		}
+		t.tree(ext.text(styleCompact), ext)
+		return &submission{Transport: "get", Role: "other", Label: "pq-not-found", HTTP: &httpEnv{Method: "GET", Params: [][2]string{{"extensions", ext.text(styleCompact)}}}}
 	case 21:
 		// variables given twice: both decoders merge into one map
 		j := jobj(kv{"variables", jobj(kv{"i", jnum("41")}, kv{"zz", jnum("1")})})
